@@ -737,6 +737,8 @@ def rule_pal_newton(ctx):
 
 
 def run(ctx):
+    from . import protocol
+    protocol.rule_running_com(ctx, 'R11.15')             # Jacobi read-back accumulates the centre of mass
     from . import edges
     edges.rule_prototype_names(ctx, 'R11.13')        # Omega and omega arrive in the order the header promises
     from . import pyrules
